@@ -65,18 +65,19 @@ func builtinRevision(set *appsv1.StatefulSet, revno int64) *appsv1.ControllerRev
 }
 
 type builtinWorld struct {
-	Name      string
-	SelShape  string // labels | expressions | both
-	Versions  []int
-	Replicas  int
-	Updated   int // pods (from the top) already at the last revision
-	Partition int
-	PreAsts   string // "" | "same" | "stale"
-	Claims    bool
+	Name       string
+	SelShape   string // labels | expressions | both
+	Versions   []int
+	Replicas   int
+	Updated    int // pods (from the top) already at the last revision
+	Partition  int
+	PreAsts    string // "" | "same" | "stale"
+	Claims     bool
+	Remigrated bool // some revisions already carry the upgrade marker (earlier migration rolled back)
 }
 
 func (b builtinWorld) String() string {
-	return fmt.Sprintf("builtin set %s selector=%s template versions=%v replicas=%d updatedFromTop=%d partition=%d preexisting-advanced=%q claims=%v", b.Name, b.SelShape, b.Versions, b.Replicas, b.Updated, b.Partition, b.PreAsts, b.Claims)
+	return fmt.Sprintf("builtin set %s selector=%s template versions=%v replicas=%d updatedFromTop=%d partition=%d preexisting-advanced=%q claims=%v remigrated=%v", b.Name, b.SelShape, b.Versions, b.Replicas, b.Updated, b.Partition, b.PreAsts, b.Claims, b.Remigrated)
 }
 
 func genBuiltinWorld(r *rand.Rand) builtinWorld {
@@ -106,6 +107,7 @@ func genBuiltinWorld(r *rand.Rand) builtinWorld {
 	}
 	b.PreAsts = []string{"", "", "same", "stale"}[r.Intn(4)]
 	b.Claims = r.Intn(3) == 0
+	b.Remigrated = r.Intn(4) == 0
 	return b
 }
 
@@ -160,7 +162,12 @@ func (b builtinWorld) build(srv *simapi.Server) *appsv1.StatefulSet {
 		seen[v] = true
 		revs = append(revs, rev)
 	}
-	for _, rev := range revs {
+	for i, rev := range revs {
+		if b.Remigrated && i%2 == 0 {
+			// leftovers of an earlier migration that was rolled back: the revision still carries the marker
+			// next to the selector labels the controller synced back
+			rev.Labels[helper.UpgradeToAdvancedStatefulSetAnn] = b.Name
+		}
 		srv.Seed(simapi.Revisions, rev)
 	}
 	byV := func(v int) string {
@@ -426,6 +433,9 @@ func runC17(ctx *Ctx) *Result {
 		res.Stats["selector_"+bw.SelShape]++
 		if bw.PreAsts != "" {
 			res.Stats["worlds_with_preexisting_advanced_object"]++
+		}
+		if bw.Remigrated {
+			res.Stats["worlds_with_already_marked_revisions"]++
 		}
 		for _, v := range base.Viol {
 			report(v, "none", base.Calls)
